@@ -205,18 +205,50 @@ def rule_typed(ctx):
     if not opvars:
         raise AnalysisError('_xfilter: comparison operator lookup not found')
 
+    # helpers the operator is handed to - called, or bound with
+    # functools.partial: their parameter is the operator there, and a
+    # parameter bound to _get_type_id is the rank function there
+    binds = {}   # helper fq -> {param: argument expression in _xfilter}
+    for g0 in list(scopes):
+        for n in (own_nodes(g0) if g0 is xfi else ast.walk(g0.node)):
+            if not isinstance(n, ast.Call):
+                continue
+            fexpr, args = n.func, list(n.args)
+            if ctx.cg.resolve_name_expr(g0, fexpr) == (
+                    'ext', 'functools.partial') and args:
+                fexpr, args = args[0], args[1:]
+            if not any(isinstance(a, ast.Name) and a.id in opvars
+                       for a in args):
+                continue
+            r_ = ctx.cg.resolve_name_expr(g0, fexpr) if isinstance(
+                fexpr, (ast.Name, ast.Attribute)) else None
+            if r_ and r_[0] == 'func' and r_[1] not in scopes:
+                h = r_[1]
+                binds[h.fq] = {h.params[i]: a for i, a in enumerate(args)
+                               if i < len(h.params)}
+                scopes.append(h)
+
     def is_rank_call(g, e, of=None):
-        if not (isinstance(e, ast.Call) and ctx.cg.resolve_name_expr(
-                g, e.func) == ('func', gt) and e.args):
+        if not (isinstance(e, ast.Call) and e.args):
+            return False
+        hit = ctx.cg.resolve_name_expr(g, e.func) == ('func', gt)
+        if not hit and isinstance(e.func, ast.Name):
+            a = binds.get(g.fq, {}).get(e.func.id)
+            hit = a is not None and ctx.cg.resolve_name_expr(
+                xfi, a) == ('func', gt)
+        if not hit:
             return False
         return of is None or norm_src(e.args[0]) == of
 
     cmp_calls = []
     for g in scopes:
         nodes = own_nodes(g) if g is xfi else ast.walk(g.node)
+        ops_here = opvars if g.fq not in binds else {
+            prm for prm, a in binds[g.fq].items()
+            if isinstance(a, ast.Name) and a.id in opvars}
         for n in nodes:
             if isinstance(n, ast.Call) and isinstance(n.func, ast.Name) and \
-                    n.func.id in opvars and n.args:
+                    n.func.id in ops_here and n.args:
                 cmp_calls.append((g, n))
     if not cmp_calls:
         raise AnalysisError('_xfilter: no call of the comparison operator')
@@ -349,17 +381,61 @@ def rule_typed(ctx):
                 file=xm.module.rel, function=xm.qualname, line=mode_if.lineno)
         return rr
     for mode, want, text in (('Gt', 'LtE', 'largest element not greater than '
-                                           'the key (x <= val)'),
-                             ('Lt', 'Lt', 'scan until the first element '
-                                          'smaller than the key (x < val)')):
-        defs = [s for s in modes[mode] if isinstance(s, ast.FunctionDef)]
-        ok = False
-        if len(defs) == 1 and len(defs[0].args.args) >= 3:
-            cand, val = defs[0].args.args[1].arg, defs[0].args.args[2].arg
-            first_if = [s for s in defs[0].body if isinstance(s, ast.If)]
-            if first_if:
-                c = _cmp_norm(first_if[0].test, cand)
-                ok = bool(c and c[0] == want and c[1] == val)
+                                           'the key (recorded while x <= val)'),
+                             ('Lt', 'GtE', 'smallest element not smaller than '
+                                           'the key (recorded while x >= val, '
+                                           'scan stops at the first x < val)')):
+        # the scan predicate of the branch: a nested def, or a module-level
+        # function selected by name (possibly through functools.partial)
+        defs, shift = [s for s in modes[mode]
+                       if isinstance(s, ast.FunctionDef)], 0
+        if not defs:
+            for s_ in modes[mode]:
+                if not (isinstance(s_, ast.Assign) and len(s_.targets) == 1
+                        and isinstance(s_.targets[0], ast.Name)):
+                    continue
+                v_, sh = s_.value, 0
+                if isinstance(v_, ast.Call) and ctx.cg.resolve_name_expr(
+                        xm, v_.func) == ('ext', 'functools.partial') and \
+                        v_.args and not v_.keywords:
+                    v_, sh = v_.args[0], len(v_.args) - 1
+                r_ = ctx.cg.resolve_name_expr(xm, v_) if isinstance(
+                    v_, (ast.Name, ast.Attribute)) else None
+                if r_ and r_[0] == 'func' and isinstance(
+                        r_[1].node, ast.FunctionDef):
+                    defs, shift = [r_[1].node], sh
+        if len(defs) != 1 or len(defs[0].args.args) < 3 + shift:
+            raise AnalysisError('xmatch: the scan predicate of the match_type '
+                                '%s 0 branch was not recognised'
+                                % ('>' if mode == 'Gt' else '<'))
+        # the condition under which the predicate records the candidate
+        # (`r[0] = j`), read from the path conditions of that store - the same
+        # whether the code nests the store or leaves early before it
+        from ..util import path_conditions
+        cand = defs[0].args.args[1 + shift].arg
+        val = defs[0].args.args[2 + shift].arg
+        pfi = p.func_of_node.get(id(defs[0]))
+        stores = [n for n in ast.walk(defs[0]) if isinstance(n, ast.Assign)
+                  and isinstance(n.targets[0], ast.Subscript)
+                  and isinstance(n.targets[0].value, ast.Name)
+                  and n.targets[0].value.id in [a.arg for a in
+                                                defs[0].args.args]]
+        if pfi is None or len(stores) != 1:
+            raise AnalysisError('xmatch: the store that records a candidate '
+                                'was not recognised in the match_type %s 0 '
+                                'predicate' % ('>' if mode == 'Gt' else '<'))
+        neg = {'Lt': 'GtE', 'GtE': 'Lt', 'Gt': 'LtE', 'LtE': 'Gt'}
+        eff = []
+        for t_, pol in path_conditions(pfi, stores[0]):
+            c = _cmp_norm(t_, cand)
+            if c and c[1] == val and c[0] in neg:
+                eff.append(c[0] if pol else neg[c[0]])
+        if len(eff) != 1:
+            raise AnalysisError('xmatch: no single ordering test between the '
+                                'candidate and the key guards the recording '
+                                'store (match_type %s 0)'
+                                % ('>' if mode == 'Gt' else '<'))
+        ok = eff[0] == want
         if ok:
             rr.ok('match_type %s 0: %s' % ('>' if mode == 'Gt' else '<', text),
                   '%s:%d' % (xm.module.rel, defs[0].lineno))
@@ -384,8 +460,9 @@ def _guards(ctx, regs):
 
 
 def run(ctx):
+    S = ctx.soft
     from .c02 import rule_rank
-    r = rule_rank(ctx)
+    r = S(rule_rank, ctx)
     r.prop, r.rule = 'C19', 'C19.rank'
     for f in r.findings:
         f.prop, f.rule = 'C19', 'C19.rank'
@@ -399,8 +476,8 @@ def run(ctx):
     from .common import rule_slotmemo, nomut_for
     fm = [f for f in ctx.project.functions.values()
           if f.module.rel.startswith('formulas/functions/')]
-    return [rule_core(ctx), rule_typed(ctx), r,
-            rule_memo(ctx, 'C19', 'C19.memo', regs),
-            rule_slotmemo(ctx, 'C19', 'C19.slotmemo', fm),
-            nomut_for(ctx, 'C19', 'C19.nomut', regs, floor=20),
-            _guards(ctx, regs)]
+    return [S(rule_core, ctx), S(rule_typed, ctx), r,
+            S(rule_memo, ctx, 'C19', 'C19.memo', regs),
+            S(rule_slotmemo, ctx, 'C19', 'C19.slotmemo', fm),
+            S(nomut_for, ctx, 'C19', 'C19.nomut', regs, floor=20),
+            S(_guards, ctx, regs)]
